@@ -1655,6 +1655,8 @@ mod sp {
                     tokio::task::yield_now().await;
                     Ok(true)
                 }
+                // a synchronous polling slice: ready on its first poll, every time (the loop spins, but still serves messages)
+                3 => Ok(true),
                 _ => {
                     tokio::time::sleep(std::time::Duration::from_micros(50)).await;
                     Ok(true)
@@ -1680,9 +1682,10 @@ mod sp {
 fn round_dropspin(seed: u64, hb: &Heartbeat, tot: &Mutex<Tot>, prop: &str) {
     use sp::*;
     let mut r = Rng::new(seed);
-    let workers = 2 + r.below(3) as usize;
+    let workers = 3 + r.below(3) as usize;
     let rt = tokio::runtime::Builder::new_multi_thread().worker_threads(workers).enable_time().build().unwrap();
     let k = 4 + r.below(5) as usize;
+    let spinner = if r.chance(50) { Some(r.below(k as u64) as usize) } else { None };
     let bucket0 = hb.now_bucket();
     let mut viol: Vec<(String, String)> = vec![];
     let mut actors = vec![];
@@ -1691,9 +1694,13 @@ fn round_dropspin(seed: u64, hb: &Heartbeat, tot: &Mutex<Tot>, prop: &str) {
         for i in 0..k {
             let stops = Arc::new(AtomicU64::new(0));
             let sk = Arc::new(AtomicU64::new(0));
-            let mode = if i % 4 == 3 { 0 } else { 1 + r.below(2) as u8 };
+            // at most one actor per round whose on_run never suspends (it occupies a worker thread until it ends)
+            let mode = if Some(i) == spinner { 3 } else if i % 4 == 3 { 0 } else { 1 + r.below(2) as u8 };
             let (a, jh) = rsactor::spawn_with_mailbox_capacity::<S>(Args { mode, stops: stops.clone(), stop_killed: sk.clone() }, 1 + r.below(4) as usize);
-            let _ = tokio::time::timeout(Duration::from_secs(10), a.ask(Ping)).await;
+            match tokio::time::timeout(Duration::from_secs(10), a.ask(Ping)).await {
+                Ok(Ok(1)) => {}
+                other => viol.push(("C03.complete".into(), format!("[dropspin] actor {i} (on_run mode {mode}) did not answer a plain ask within 10 s although every on_run call finishes at once: {other:?}"))),
+            }
             // two strong references per actor, dropped by two different threads at about the same time
             groups[0].push(a.clone());
             groups[1].push(a);
@@ -1724,7 +1731,7 @@ fn round_dropspin(seed: u64, hb: &Heartbeat, tot: &Mutex<Tot>, prop: &str) {
     let mut n_ok = 0u64;
     rt.block_on(async {
         for (i, (mode, stops, sk, jh)) in actors.into_iter().enumerate() {
-            let what = format!("actor {i} (on_run mode {mode}: {}) whose hooks all return Ok lost its last two strong references on two other threads", ["returns Ok(false)", "yields, then Ok(true)", "50 us timer, then Ok(true)"][mode as usize]);
+            let what = format!("actor {i} (on_run mode {mode}: {}) whose hooks all return Ok lost its last two strong references on two other threads", ["returns Ok(false)", "yields, then Ok(true)", "50 us timer, then Ok(true)", "Ok(true) at once, never suspends"][mode as usize]);
             match tokio::time::timeout(Duration::from_secs(10), jh).await {
                 Err(_) => viol.push(("C07.ends".into(), format!("[dropspin] {what}; its JoinHandle had not resolved 10 s later (on_stop ran {} time(s))", stops.load(Ordering::SeqCst)))),
                 Ok(Err(e)) => viol.push(("C05.result".into(), format!("[dropspin] {what}; the JoinHandle reports {} instead of Completed {{ killed: false }}; on_stop ran {} time(s)", if e.is_panic() { format!("a panic ({})", panic_payload_to_string(e.into_panic().as_ref())) } else { "a cancelled task".to_string() }, stops.load(Ordering::SeqCst)))),
@@ -1758,7 +1765,7 @@ fn round_dropspin(seed: u64, hb: &Heartbeat, tot: &Mutex<Tot>, prop: &str) {
         viol.retain(|v| v.0 != "C07.ends");
     }
     for (c, m) in viol {
-        if prop == "all" || c.starts_with(prop) || (prop == "C12" && c != "C07.ends") {
+        if prop == "all" || c.starts_with(prop) || (prop == "C12" && c != "C07.ends") || (prop == "C08" && c.starts_with("C03")) {
             t.viol.push((c, m, seed, "dropspin".into()));
         }
     }
@@ -2341,6 +2348,128 @@ fn round_lastslot(seed: u64, hb: &Heartbeat, tot: &Mutex<Tot>, prop: &str) {
     for (c, m) in v {
         if prop == "all" || c.starts_with(prop) {
             t.viol.push((c.into(), m, seed, "lastslot".into()));
+        }
+    }
+}
+
+// ---------------------------------------------------------------------------------------------
+// hookblocking: a hook on a multi-thread runtime uses the blocking API on its own worker thread (tokio::task::block_in_place).
+// The callee answers and - in its next handler, from a message it queued for itself - asks the first actor back. Nobody waits
+// for anybody in a cycle: the blocking ask has been answered before the ask-back is made (C17; C18 when run on two builds).
+// ---------------------------------------------------------------------------------------------
+mod hk {
+    use rsactor::{Actor, ActorRef, Message};
+    use std::sync::atomic::{AtomicU64, Ordering};
+    use std::sync::Arc;
+    pub struct N {
+        pub back_ok: Arc<AtomicU64>,
+        pub back_err: Arc<AtomicU64>,
+    }
+    pub struct Outer(pub ActorRef<N>, pub bool);
+    pub struct Inner(pub ActorRef<N>);
+    pub struct Back2(pub ActorRef<N>);
+    pub struct Ping;
+    impl Actor for N {
+        type Args = (Arc<AtomicU64>, Arc<AtomicU64>);
+        type Error = String;
+        async fn on_start(a: Self::Args, _: &ActorRef<Self>) -> Result<Self, String> {
+            Ok(N { back_ok: a.0, back_err: a.1 })
+        }
+    }
+    impl Message<Ping> for N {
+        type Reply = u8;
+        async fn handle(&mut self, _: Ping, _: &ActorRef<Self>) -> u8 {
+            1
+        }
+    }
+    impl Message<Outer> for N {
+        type Reply = Option<u8>;
+        async fn handle(&mut self, m: Outer, me: &ActorRef<Self>) -> Option<u8> {
+            let me2 = me.clone();
+            // the blocking API used from a hook: legal on a multi-thread runtime through block_in_place
+            tokio::task::block_in_place(move || if m.1 { m.0.blocking_ask(Inner(me2), None).ok() } else { m.0.blocking_ask(Inner(me2), Some(std::time::Duration::from_secs(5))).ok() })
+        }
+    }
+    impl Message<Inner> for N {
+        type Reply = u8;
+        async fn handle(&mut self, m: Inner, me: &ActorRef<Self>) -> u8 {
+            // queue the ask-back for later (behind this request), then answer
+            let _ = me.tell(Back2(m.0)).await;
+            7
+        }
+    }
+    impl Message<Back2> for N {
+        type Reply = ();
+        async fn handle(&mut self, m: Back2, _: &ActorRef<Self>) {
+            match m.0.ask(Ping).await {
+                Ok(_) => self.back_ok.fetch_add(1, Ordering::SeqCst),
+                Err(_) => self.back_err.fetch_add(1, Ordering::SeqCst),
+            };
+        }
+    }
+}
+
+fn round_hookblocking(seed: u64, hb: &Heartbeat, tot: &Mutex<Tot>, prop: &str) {
+    use hk::*;
+    let mut r = Rng::new(seed);
+    let rt = tokio::runtime::Builder::new_multi_thread().worker_threads(2 + r.below(3) as usize).enable_time().build().unwrap();
+    let bucket0 = hb.now_bucket();
+    let iters = 10 + r.below(20);
+    let (ok, err) = (Arc::new(AtomicU64::new(0)), Arc::new(AtomicU64::new(0)));
+    let mut viol: Vec<String> = vec![];
+    let done = rt.block_on(async {
+        let (front, fjh) = rsactor::spawn::<N>((ok.clone(), err.clone()));
+        let (back, bjh) = rsactor::spawn::<N>((ok.clone(), err.clone()));
+        let mut done = 0u64;
+        for i in 0..iters {
+            let untimed = r.chance(50);
+            match tokio::time::timeout(Duration::from_secs(15), front.ask(Outer(back.clone(), untimed))).await {
+                Ok(Ok(Some(7))) => {}
+                Ok(other) => {
+                    viol.push(format!("iteration {i}: a handler's blocking_ask({}) through block_in_place to an idle actor gave {other:?}", if untimed { "None" } else { "Some(5 s)" }));
+                    break;
+                }
+                Err(_) => {
+                    viol.push(format!("iteration {i}: a handler's blocking_ask through block_in_place had not returned after 15 s"));
+                    break;
+                }
+            }
+            // wait for the ask-back to be over
+            if tokio::time::timeout(Duration::from_secs(15), back.ask(Ping)).await.map(|r| r.is_err()).unwrap_or(true) {
+                viol.push(format!("iteration {i}: the callee did not survive asking the first actor back (after it had answered that actor's blocking ask)"));
+                break;
+            }
+            done += 1;
+        }
+        let _ = front.kill();
+        let _ = back.kill();
+        for (name, jh) in [("front", fjh), ("back", bjh)] {
+            if let Ok(Err(e)) = tokio::time::timeout(Duration::from_secs(10), jh).await {
+                if e.is_panic() {
+                    viol.push(format!("the {name} actor died of a panic: {}", panic_payload_to_string(e.into_panic().as_ref()).chars().take(160).collect::<String>()));
+                }
+            }
+        }
+        done
+    });
+    rt.shutdown_timeout(Duration::from_secs(2));
+    let stalled = hb.max_late_since(bucket0) > STALL_US;
+    let (nok, nerr) = (ok.load(Ordering::SeqCst), err.load(Ordering::SeqCst));
+    if nerr > 0 {
+        viol.push(format!("{nerr} ask-back(s) from the callee to the first actor failed ({nok} succeeded)"));
+    }
+    let mut t = tot.lock().unwrap();
+    t.rounds += 1;
+    t.hashes.insert(mix(iters, seed % 4));
+    *t.nontrivial.entry("C17".into()).or_default() += 1;
+    *t.obl.entry("C17.same_rules").or_default() += done;
+    if stalled && !viol.is_empty() {
+        t.inconclusive.push(format!("hookblocking round {seed}: machine stalled"));
+        return;
+    }
+    for m in viol {
+        if prop == "all" || prop == "C17" || prop == "C18" {
+            t.viol.push(("C17.same_rules".into(), format!("[hook-blocking] {m}"), seed, "hookblocking".into()));
         }
     }
 }
@@ -3188,6 +3317,16 @@ pub fn cmd_mt(a: &Args) -> i32 {
                     }
                 }
             }
+            "hookblocking" => {
+                let mut n = 0u64;
+                while tp.elapsed() < per_profile {
+                    n += 1;
+                    round_hookblocking(mix(base, ((pi as u64) << 56) ^ n), &hb, &tot, &prop);
+                    if tot.lock().unwrap().viol.len() > 3 {
+                        break;
+                    }
+                }
+            }
             "abort" => {
                 let mut n = 0u64;
                 while tp.elapsed() < per_profile {
@@ -3254,7 +3393,7 @@ pub fn cmd_mt(a: &Args) -> i32 {
     #[cfg(feature = "f_testutils")]
     {
         let d = rsactor::dead_letter_count() - dl0;
-        if !tainted.load(Ordering::Relaxed) && profiles.iter().all(|p| p != "spawnstorm" && p != "tightrace" && p != "starve" && p != "mutualask" && p != "abort" && p != "reentrant" && p != "dropspin" && p != "metricsrace" && p != "undriven" && p != "dlrace" && p != "dropsend" && p != "lastslot") {
+        if !tainted.load(Ordering::Relaxed) && profiles.iter().all(|p| p != "spawnstorm" && p != "tightrace" && p != "starve" && p != "mutualask" && p != "abort" && p != "reentrant" && p != "dropspin" && p != "metricsrace" && p != "undriven" && p != "dlrace" && p != "dropsend" && p != "lastslot" && p != "hookblocking") {
             *t.obl.entry("C13.counter").or_default() += 1;
             t.extra.insert("dead_letter_count_delta".into(), d);
             let fl = t.failures;
